@@ -1,0 +1,11 @@
+//go:build verif
+
+package webseed
+
+func VerifParseContentRange(cr string) (offset int64, length int64, fl int64, err error) {
+	return parseContentRange(cr)
+}
+
+func VerifBuildUrl(url string, name string, file []string) string {
+	return buildUrl(url, name, file)
+}
